@@ -763,9 +763,12 @@ def record_fields(cls: ast.ClassDef) -> list[str] | None:
     return [st.target.id for st in cls.body if isinstance(st, ast.AnnAssign) and isinstance(st.target, ast.Name)]
 
 
-def scalarise_records(fn: ast.AST, records: dict[str, list[str]]) -> int:
-    """scalar replacement of a local record: `v = R(a=e1, b=e2)` (R one of `records`, v bound once and only ever read as
-    `v.a` / `v.b`) becomes `v__a = e1; v__b = e2` and the reads become those names. In place; returns how many were replaced."""
+def scalarise_records(fn: ast.AST, records: dict[str, list[str]], classes: dict | None = None) -> int:
+    """scalar replacement of a local record: for `v = R(a=e1, b=e2)` (R one of `records`, v bound once) one local per field is
+    bound (`v__a = e1; v__b = e2`) and the reads that only concern fields are rewritten to them: `v.a`; a property `v.p` whose
+    body is `return <expr over self.fields>`; `x, y = v` (unpacking in field order); a method call `v.m(args)` whose body is one
+    returned expression. The record itself stays bound when anything else still uses it. In place; returns how many records
+    were treated."""
     done = 0
     names = _all_names(fn)
     for asg in [n for n in walk_no_nested(fn) if isinstance(n, (ast.Assign, ast.AnnAssign))]:
@@ -778,47 +781,133 @@ def scalarise_records(fn: ast.AST, records: dict[str, list[str]]) -> int:
             continue
         vals: dict[str, ast.AST] = dict(zip(fields, call.args))
         vals.update({k.arg: k.value for k in call.keywords})  # type: ignore[misc]
+        if set(vals) != set(fields):
+            continue  # defaults in play: leave it
         v = tg.id
         stores = [n for n in ast.walk(fn) if isinstance(n, ast.Name) and n.id == v and isinstance(n.ctx, (ast.Store, ast.Del))]
         loads = [n for n in ast.walk(fn) if isinstance(n, ast.Name) and n.id == v and isinstance(n.ctx, ast.Load)]
         if len(stores) != 1:
             continue
-        if not all(isinstance(getattr(n, "_parent", None), ast.Attribute) and getattr(n, "_parent").value is n and isinstance(getattr(n, "_parent").ctx, ast.Load) and getattr(n, "_parent").attr in vals for n in loads):
-            continue
-        blk = None
         par = getattr(asg, "_parent", None)
+        blk = None
         for f in ("body", "orelse", "finalbody"):
             lst = getattr(par, f, None)
             if isinstance(lst, list) and asg in lst:
                 blk = lst
         if blk is None:
             continue
+        cls_node = (classes or {}).get(call.func.id)
+        members: dict[str, ast.FunctionDef] = {m.name: m for m in getattr(cls_node, "body", []) if isinstance(m, ast.FunctionDef)}
         new_names = {}
         repl: list[ast.stmt] = []
-        for f_, e in vals.items():
+        for f_ in fields:
             nm = f"{v}__{f_}"
             while nm in names:
                 nm += "_"
             names.add(nm)
             new_names[f_] = nm
-            a = ast.Assign(targets=[ast.Name(id=nm, ctx=ast.Store())], value=e)
+            a = ast.Assign(targets=[ast.Name(id=nm, ctx=ast.Store())], value=vals[f_])
             ast.copy_location(a, asg)
             ast.fix_missing_locations(a)
             a._parent = par  # type: ignore[attr-defined]
             repl.append(a)
-        i = blk.index(asg)
-        blk[i:i + 1] = repl
-        for n in loads:
-            att = n._parent  # type: ignore[attr-defined]
-            new = ast.Name(id=new_names[att.attr], ctx=ast.Load())
-            ast.copy_location(new, att)
-            gp = getattr(att, "_parent", None)
+
+        def over_fields(expr: ast.AST, env: dict[str, ast.AST]) -> ast.AST | None:
+            """`expr` of a member with self.<field> -> field local and parameters -> arguments; None if it needs `self` otherwise"""
+            e = clone(expr)
+            ok = [True]
+
+            class S(ast.NodeTransformer):
+                def visit_Attribute(self, n: ast.Attribute):  # noqa: N802
+                    if isinstance(n.value, ast.Name) and n.value.id == "self":
+                        if n.attr in new_names and isinstance(n.ctx, ast.Load):
+                            return ast.copy_location(ast.Name(id=new_names[n.attr], ctx=ast.Load()), n)
+                        ok[0] = False
+                        return n
+                    return self.generic_visit(n)
+
+                def visit_Name(self, n: ast.Name):  # noqa: N802
+                    if n.id == "self":
+                        ok[0] = False
+                    if n.id in env and isinstance(n.ctx, ast.Load):
+                        return ast.copy_location(clone(env[n.id]), n)
+                    return n
+
+            out = S().visit(e)
+            return out if ok[0] else None
+
+        def single_return(m: ast.FunctionDef) -> ast.AST | None:
+            body = [b for b in m.body if not (isinstance(b, ast.Expr) and isinstance(b.value, ast.Constant) and isinstance(b.value.value, str))]
+            return body[0].value if len(body) == 1 and isinstance(body[0], ast.Return) and body[0].value is not None else None
+
+        def put(old: ast.AST, new: ast.AST) -> None:
+            gp = getattr(old, "_parent", None)
+            ast.copy_location(new, old)
+            ast.fix_missing_locations(new)
+            for ch in ast.walk(new):
+                for c2 in ast.iter_child_nodes(ch):
+                    c2._parent = ch  # type: ignore[attr-defined]
             new._parent = gp  # type: ignore[attr-defined]
             for fld, val in ast.iter_fields(gp):
-                if val is att:
+                if val is old:
                     setattr(gp, fld, new)
-                elif isinstance(val, list) and att in val:
-                    val[val.index(att)] = new
+                elif isinstance(val, list) and old in val:
+                    val[val.index(old)] = new
+
+        remaining = 0
+        for n in loads:
+            att = getattr(n, "_parent", None)
+            if isinstance(att, ast.Attribute) and att.value is n and isinstance(att.ctx, ast.Load):
+                if att.attr in new_names:
+                    put(att, ast.Name(id=new_names[att.attr], ctx=ast.Load()))
+                    continue
+                m = members.get(att.attr)
+                gp = getattr(att, "_parent", None)
+                if m is not None and any(isinstance(d, ast.Name) and d.id == "property" for d in m.decorator_list):
+                    r = single_return(m)
+                    e = over_fields(r, {}) if r is not None else None
+                    if e is not None:
+                        put(att, e)
+                        continue
+                if m is not None and not m.decorator_list and isinstance(gp, ast.Call) and gp.func is att and not gp.keywords and not any(isinstance(a, ast.Starred) for a in gp.args):
+                    r = single_return(m)
+                    ps = [a.arg for a in m.args.args][1:]
+                    e = over_fields(r, dict(zip(ps, gp.args))) if r is not None and len(ps) == len(gp.args) else None
+                    if e is not None:
+                        put(gp, e)
+                        continue
+            elif isinstance(att, ast.Assign) and att.value is n and len(att.targets) == 1 and isinstance(att.targets[0], ast.Tuple) and len(att.targets[0].elts) == len(fields) and all(isinstance(t, ast.Name) for t in att.targets[0].elts):
+                ap = getattr(att, "_parent", None)
+                for f2 in ("body", "orelse", "finalbody"):
+                    lst = getattr(ap, f2, None)
+                    if isinstance(lst, list) and att in lst:
+                        parts = []
+                        for t, f_ in zip(att.targets[0].elts, fields):
+                            a2 = ast.Assign(targets=[ast.Name(id=t.id, ctx=ast.Store())], value=ast.Name(id=new_names[f_], ctx=ast.Load()))
+                            ast.copy_location(a2, att)
+                            ast.fix_missing_locations(a2)
+                            a2._parent = ap  # type: ignore[attr-defined]
+                            for c2 in ast.iter_child_nodes(a2):
+                                c2._parent = a2  # type: ignore[attr-defined]
+                            parts.append(a2)
+                        i2 = lst.index(att)
+                        lst[i2:i2 + 1] = parts
+                        break
+                else:
+                    remaining += 1
+                continue
+            remaining += 1
+        i = blk.index(asg)
+        if remaining:
+            # something still needs the record itself: keep it, built from the field locals
+            call.args = [ast.Name(id=new_names[f_], ctx=ast.Load()) for f_ in fields]
+            call.keywords = []
+            ast.fix_missing_locations(call)
+            for c2 in call.args:
+                c2._parent = call  # type: ignore[attr-defined]
+            blk[i:i] = repl
+        else:
+            blk[i:i + 1] = repl
         done += 1
     return done
 
